@@ -243,7 +243,9 @@ impl SyntaxPattern {
                         &DatumBody::Symbol(datum_symbol) if datum_symbol == pattern_symbol )
                 }
             }
-            (SyntaxPatternBody::Primitive(_), DatumBody::Primitive(_)) => true,
+            (SyntaxPatternBody::Primitive(pattern), DatumBody::Primitive(primitive)) => {
+                pattern == primitive
+            }
             _ => false,
         };
 
